@@ -44,13 +44,19 @@ def qs(q):
 
 # ------------------------------------------------------------------------------------------------ generator
 COEF = [Fraction(k, 4) for k in (-12, -8, -6, -4, -3, -2, -1, 1, 2, 3, 4, 6, 8, 12)]
-def gen_lin_model(rng, precs, flags, small=False, to=400):
+def gen_lin_model(rng, precs, flags, small=False, to=400, fixed=False):
     prec = rng.choice(precs)
-    nv = rng.choice([1, 2, 2, 2, 3, 3, 4])
+    nv = rng.choice([1, 2, 2, 2, 3, 3, 4]) if not fixed else rng.choice([2, 3, 3, 4])
     decls, pt = [], []
     nint = 0
+    fx = rng.randrange(nv) if fixed else -1      # a single-valued variable: the LP builder substitutes it as a constant
     for i in range(nv):
-        if rng.random() < 0.2 and nint < 2 and i > 0:
+        if i == fx:
+            if rng.random() < 0.5:
+                v = rng.randint(-4, 5); decls.append("I %d %d" % (v, v)); pt.append(Fraction(v)); nint += 1
+            else:
+                v = Fraction(rng.randint(-8, 10), 2); decls.append("F %s %s" % (hq(v), hq(v))); pt.append(v)
+        elif rng.random() < 0.2 and nint < 2 and i > 0:
             lo = rng.randint(-2, 2); hi = lo + rng.randint(0, 3); nint += 1
             decls.append("I %d %d" % (lo, hi)); pt.append(Fraction(rng.randint(lo, hi)))
         else:
@@ -60,13 +66,15 @@ def gen_lin_model(rng, precs, flags, small=False, to=400):
     for _ in range(rng.choice([1, 2, 2, 3, 3, 4])):
         k = min(nv, rng.choice([1, 2, 2, 2, 3]))
         xs = rng.sample(range(nv), k)
+        if fixed and fx not in xs and rng.random() < 0.7:
+            xs = [fx] + (xs[:-1] if len(xs) > 1 and rng.random() < 0.5 else xs)
         cs = [rng.choice(COEF) for _ in xs]
-        rel = rng.choice(["le", "le", "le", "ge", "ge", "lt", "gt", "eq"])
+        rel = rng.choice(["le", "le", "le", "ge", "ge", "lt", "gt", "eq"] if not fixed else ["le", "ge", "ge", "ge", "gt", "eq", "eq"])
         lhs = sum((c * pt[x] for c, x in zip(cs, xs)), Fraction(0))
         slack = Fraction(rng.randint(0, 8), 4) if rng.random() < 0.9 else Fraction(-rng.randint(1, 40), 4)
         K = lhs + slack if rel in ("le", "lt") else lhs - slack if rel in ("ge", "gt") else lhs
         xsn = ",".join("x%d" % x for x in xs)
-        route = rng.choice(["lin", "lin", "new", "new", "props"])
+        route = rng.choice(["lin", "lin", "new", "new", "props"] if not fixed else ["lin", "new", "new", "new", "props"])
         if route == "lin":
             if rel in ("ge", "gt"): cs2, K2, r2 = [-c for c in cs], -K, "le"
             else: cs2, K2, r2 = cs, K, ("le" if rel == "lt" else rel)
@@ -93,7 +101,7 @@ def gen_lin_model(rng, precs, flags, small=False, to=400):
             for t in terms[1:]: l = "add(%s,%s)" % (l, t)
             kk = str(int(K)) if (K.denominator == 1 and rng.random() < 0.3) else "f:" + hq(K)
             posts.append("new %s(%s,%s)" % (rel, l, kk))
-    fl = [i for i in range(nv) if decls[i].startswith("F")]
+    fl = [i for i in range(nv) if decls[i].startswith("F") and i != fx]
     obj = rng.choice(fl) if (fl and rng.random() < 0.85) else rng.randrange(nv)
     entry = "%s x%d" % (rng.choice(["min", "max"]), obj)
     return " ; ".join([str(prec), "|".join(decls)] + posts + [entry] + flags + ["to %d" % to])
@@ -108,6 +116,9 @@ def gen_default(tier, rng):
     return [gen_lin_model(rng, PRECS, ["lp", "fp"]) for _ in range(1200 if tier == "quick" else 30000)]
 def gen_lp_only(tier, rng):
     return [gen_lin_model(rng, PRECS, ["lp"]) for _ in range(800 if tier == "quick" else 20000)]
+def gen_fixed(tier, rng):
+    # single-valued variables inside >= / = rows: to_lp_problem moves them to the right-hand side per standard-form row
+    return [gen_lin_model(rng, PRECS, rng.choice([["lp", "fp"], ["lp"]]), fixed=True) for _ in range(800 if tier == "quick" else 20000)]
 def gen_search(tier, rng):
     return [gen_lin_model(rng, [1, 1, 2, 2, 3], [], small=True, to=1500) for _ in range(300 if tier == "quick" else 6000)]
 
@@ -271,7 +282,11 @@ def classify(line, impl, cls):
     if cs and all(c is not None for c in cs): return cs[0]
     if fm.fast_path_applies(case) and not impl.endswith("lp=1"):
         return "fast_path"
-    if impl.endswith("lp=1"):
+    if impl.endswith("lp=1") and impl.startswith("err NoSolution"):
+        # D10's only symptom: the LP vertex, fixed on every LP variable, contradicts the remaining constraints or an integer
+        # domain, so a satisfiable model is reported infeasible.  A WRONG OPTIMUM or an INFEASIBLE POINT with the LP step on is
+        # not D10 (a vertex that satisfies every constraint is optimal over a relaxation, hence optimal) and is not attributed.
+        # (narrowing by variable type does not work: an off-grid vertex on an all-float, <=-only model is rejected too)
         return "lp_root"
     rc = row_classes(case)
     if rc: return sorted(rc)[0]
@@ -306,4 +321,4 @@ def fam(name, gen):
     f.classify = classify
     f.corr = corr_dispatch
     return f
-FAMILIES = [fam("opt_default", gen_default), fam("opt_lp_only", gen_lp_only), fam("opt_search", gen_search)]
+FAMILIES = [fam("opt_default", gen_default), fam("opt_lp_only", gen_lp_only), fam("opt_fixed_vars", gen_fixed), fam("opt_search", gen_search)]
